@@ -201,6 +201,9 @@ def _translate_metadata_to_ds9(region, shape):
     # special case for Text regions
     if 'text' in region._params:
         meta = {'text': region.text, **meta}
+        # the text parameter is the text of the region, also when the
+        # meta has a text entry
+        meta['text'] = region.text
 
     if 'annulus' in shape:
         # ds9 does not allow fill for annulus regions
